@@ -125,7 +125,8 @@ CHECKS.update({
                      "the signature followed by the transmitted body (Binance) / the v2 message rebuilt from the "
                      "transmitted request (Bitstamp) for each of the 95 printable ASCII characters at the free position "
                      "of each string argument (solver-enumerated), key header present, timestamp == round(clock x 1000) "
-                     "for three boundary clocks, two requests get different nonces.",
+                     "for three boundary clocks, two requests get different nonces; extra keyword arguments incl. "
+                     "decimals in exponent notation.",
                 note="wire = what yarl/FormData produce in pure-python mode, not socket bytes; HMAC-SHA256 and uuid4 "
                      "uniqueness trusted; one free character per value"),
     "C17": dict(level="model_checking", ref="DESIGN.md §5 C17, §4",
@@ -135,7 +136,10 @@ CHECKS.update({
                 text="Every order entry point of binance spot / cross / isolated accounts and of bitstamp, both sides: "
                      "for every coefficient in [1,1e16) and every exponent -14..+4 each decimal parameter arrives as a "
                      "plain fixed-point string of the same value, unset options absent, documented endpoint / side / "
-                     "symbol / type; ms and us timestamp kernels exact over 2010..2100 (reals: symbolic integer; "
+                     "symbol / type; the same entry points with 13 concrete digit shapes x 19 exponents so that real "
+                     "strings reach the wire and are compared exactly; binance Trade / OrderInfo / Balance and bitstamp "
+                     "OrderStatus / OrderInfo / Balance wrappers decoded from payloads with symbolic numeric cells "
+                     "(fees = per-asset sums); ms and us timestamp kernels exact over 2010..2100 (reals: symbolic integer; "
                      "binary64: 50 binade cases each, all unsat, every case's witness validated against "
                      "datetime.fromtimestamp).",
                 note="str(Decimal) contract = General Decimal Arithmetic to-scientific-string; wrapper decoding of "
